@@ -15,6 +15,7 @@ pub mod c12;
 pub mod c13;
 pub mod c14;
 pub mod c17;
+pub mod c19;
 pub mod c20;
 
 pub fn run(ctx: &Ctx, sh: &mut Shard) {
@@ -32,6 +33,7 @@ pub fn run(ctx: &Ctx, sh: &mut Shard) {
         "C13" => c13::run(ctx, sh),
         "C14" => c14::run(ctx, sh),
         "C17" => c17::run(ctx, sh),
+        "C19" => c19::run(ctx, sh),
         "C20" => c20::run(ctx, sh),
         p => {
             eprintln!("no monitor for {p}");
@@ -54,6 +56,7 @@ pub fn replay(v: &Value, sh: &mut Shard) {
         "C13" => c13::replay(v, sh),
         "C14" => c14::replay(v, sh),
         "C17" => c17::replay(v, sh),
+        "C19" => c19::replay(v, sh),
         "C20" => c20::replay(v, sh),
         p => {
             eprintln!("no replay for {p}");
